@@ -10,7 +10,7 @@ PROPS["C14"] = dict(
         "Kust.C14.create_then_lookup", "Kust.C14.match_nocreate_doc", "Kust.C14.match_denotes", "Kust.C14.denote_resolves",
         "Kust.C14.match_positions_resolve", "Kust.C14.match_positions_resolve_create",
     ],
-    components=["fns.lookup", "fns.lookup2", "fns.setfield", "fns.clear", "fns.setelem", "fieldspec.apply", "match.path"],
+    components=["fns.lookup", "fns.lookup2", "fns.setfield", "fns.clear", "fns.setelem", "fieldspec.apply", "match.path", "path.split"],
     oracle=False,
     n_corr={"quick": 3000, "thorough": 40000},
     technique="Lean 4 proof of get/set laws on a transliterated model of kyaml fns.go + differential correspondence (Go vs compiled Lean driver)",
